@@ -515,17 +515,31 @@ func buildRequest(r *rand.Rand, p *synth.Project, c *synth.Controller, m *synth.
 				continue
 			}
 			name := pr.WireName()
+			// a decoy is a well-typed value (so that a router reading the wrong source delivers it instead of
+			// failing on conversion, which would look like the expected refusal)
+			decoy := "decoy"
+			switch prim := primOf(p, pr.Type); {
+			case prim == "bool":
+				decoy = "true"
+			case strings.HasPrefix(prim, "float"):
+				decoy = "7.5"
+			case strings.HasPrefix(prim, "int") || strings.HasPrefix(prim, "uint"):
+				decoy = "77"
+			}
+			if e := p.Enum(pr.Type.Base().Pkg, pr.Type.Base().Name); e != nil && pr.Type.Base().K == "named" {
+				decoy = e.Values[len(e.Values)-1].Text
+			}
 			if pr.In != "query" && !taken["query:"+strings.ToLower(name)] {
-				q.Add(name, "decoy-from-query")
+				q.Add(name, decoy)
 				planted++
 			}
 			if pr.In != "header" && !taken["header:"+strings.ToLower(name)] && !strings.ContainsAny(name, " :") {
-				br.Req.Headers[name] = "decoy-from-header"
+				br.Req.Headers[name] = decoy
 				planted++
 			}
 			if pr.In != "form" && canForm && !taken["form:"+strings.ToLower(name)] {
 				hasForm = true
-				form.Add(name, "decoy-from-form")
+				form.Add(name, decoy)
 				planted++
 			}
 		}
